@@ -1051,7 +1051,12 @@ func (edb *EventDb) addStat(event Event) (err error) {
 		if len(*bt) == 0 {
 			return ErrInvalidEventData
 		}
-		return edb.addBurnTicket((*bt)[0])
+		for _, ticket := range *bt {
+			if err := edb.addBurnTicket(ticket); err != nil {
+				return err
+			}
+		}
+		return nil
 	case TagAddBridgeMint:
 		// challenge pool
 		bms, ok := fromEvent[[]BridgeMint](event.Data)
@@ -1059,12 +1064,21 @@ func (edb *EventDb) addStat(event Event) (err error) {
 			return ErrInvalidEventData
 		}
 		users := make([]User, 0, len(*bms))
+		userIdx := make(map[string]int, len(*bms))
 		authMint := make(map[string]currency.Coin)
 		for _, bm := range *bms {
-			users = append(users, User{
-				UserID:    bm.UserID,
-				MintNonce: bm.MintNonce,
-			})
+			// one row per user (the upsert cannot touch a row twice): keep the highest nonce
+			if i, ok := userIdx[bm.UserID]; ok {
+				if bm.MintNonce > users[i].MintNonce {
+					users[i].MintNonce = bm.MintNonce
+				}
+			} else {
+				userIdx[bm.UserID] = len(users)
+				users = append(users, User{
+					UserID:    bm.UserID,
+					MintNonce: bm.MintNonce,
+				})
+			}
 
 			for _, sig := range bm.Signers {
 				mv, ok := authMint[sig]
